@@ -15,6 +15,13 @@
 //   every offset < required_span_size, offsets pairwise distinct, &m(i...) == data + offset (and the value stored there
 //   is read back); every view is backed by a heap block of exactly required_span_size elements (ASan red zones).
 //
+// Besides the small-scope enumeration, two value-range checks that touch no memory (generated C19_WIDE / C19_EQ entries):
+//   "wide"     layout_left/right/stride required_span_size, stride(r) and sampled offsets for LARGE dynamic extents (up to
+//              the limit of the index type, at most 2^62) against the closed forms in unsigned __int128;
+//   "equality" operator== / != between extents and between layout_left/right mappings of different index types,
+//              static/dynamic patterns and ranks with extent values around 2^7, 2^8, 2^15, 2^16, 2^31, 2^32 (equal iff same
+//              rank and extents equal as integers, both operand orders).
+//
 // Not part of the check on this tree (declared but never defined, or ill-formed when instantiated; the first two are
 // probed at compile time, so they join the check as soon as they become defined):
 //   layout_stride::mapping::required_span_size(), ::is_exhaustive(); its converting constructor and operator==;
@@ -53,7 +60,7 @@ using ll                = long long;
 struct Case {
     char const* type;
     int rank;
-    int e[4];
+    ll e[4];
     int var;
 };
 auto show_case(Case const& k) -> std::string
@@ -74,7 +81,7 @@ struct RunCtl {
     bool filter{false};
     std::string fsub;
     int frank{0};
-    int fe[4]{0, 0, 0, 0};
+    ll fe[4]{0, 0, 0, 0};
     int fvar{0};
     bool matched{false};
 };
@@ -1158,6 +1165,401 @@ void check_ctad()
 }
 #endif
 
+// ================================================================================================ wide values (no memory touched)
+// 7. operator== / operator!= between extents (and layout_left/right mappings) of DIFFERENT index types, static/dynamic
+//    patterns and ranks, with extent values around the limits of the narrower index type.  Definition: equal iff the
+//    ranks agree and extent(i) are equal as mathematical integers (std: cmp_equal); a rank mismatch is false.
+//    (Mappings of different rank are not compared: std constrains that operator== away.)
+// 8. layout_left / layout_right / layout_stride arithmetic with LARGE dynamic extents: required_span_size, stride(r) and
+//    the offsets of a sample of multi-indices (origin, last, axis ends, random) against the closed forms evaluated in
+//    unsigned __int128.  Pure arithmetic: no view is dereferenced.
+using u128 = unsigned __int128;
+using ull  = unsigned long long;
+
+auto u128_str(u128 v) -> std::string
+{
+    if (v == 0) { return "0"; }
+    std::string s;
+    while (v != 0) {
+        s.insert(s.begin(), static_cast<char>('0' + static_cast<int>(v % 10)));
+        v /= 10;
+    }
+    return s;
+}
+auto prod128(Shape const& s) -> u128
+{
+    u128 p = 1;
+    for (int i = 0; i < s.rank; ++i) { p *= static_cast<u128>(static_cast<ull>(s.e[i])); }
+    return p;
+}
+
+// ---------------------------------------------------------------- 7. equality
+constexpr ll eq_values_full[]  = {0, 1, 2, 3, 44, 127, 128, 255, 256, 300, 32767, 32768, 65535, 65536, 65580, 2147483647LL, 2147483648LL, 4294967295LL, 4294967296LL, 4294967340LL, 1LL << 62};
+constexpr ll eq_values_small[] = {0, 3, 44, 128, 300, 65580, 4294967340LL};
+// candidate values of one dimension: its static extent, or every listed value representable in the index type
+auto eq_candidates(std::size_t st, ull imaxv, bool full, ll* out) -> int
+{
+    if (st != D) {
+        out[0] = static_cast<ll>(st);
+        return 1;
+    }
+    int n = 0;
+    if (full) {
+        for (ll v : eq_values_full) {
+            if (static_cast<ull>(v) <= imaxv) { out[n++] = v; }
+        }
+    } else {
+        for (ll v : eq_values_small) {
+            if (static_cast<ull>(v) <= imaxv) { out[n++] = v; }
+        }
+    }
+    return n;
+}
+[[gnu::noinline]] auto eq_report(Case const& k, char const* what, bool exp, bool ab, bool ba, bool nab, bool nba) -> bool
+{
+    if (ab == exp && ba == exp && nab == !exp && nba == !exp) { return true; }
+    fail("equality", k, "%s: a == b is %d, b == a is %d, a != b is %d, b != a is %d; by definition (same rank and every extent equal as integers) equality is %d", what, static_cast<int>(ab), static_cast<int>(ba), static_cast<int>(nab), static_cast<int>(nba),
+        static_cast<int>(exp));
+    return false;
+}
+template <typename E1, typename E2>
+void check_eq(char const* name)
+{
+    using I1               = typename E1::index_type;
+    using I2               = typename E2::index_type;
+    constexpr std::size_t R1 = E1::rank();
+    constexpr std::size_t R2 = E2::rank();
+    static_assert(R1 + R2 <= 4);
+    constexpr int N = static_cast<int>(R1 + R2);
+    ll cand[4][24];
+    int cnt[4]      = {1, 1, 1, 1};
+    bool const full = R1 <= 1 && R2 <= 1;
+    for (std::size_t d = 0; d < R1; ++d) { cnt[d] = eq_candidates(E1::static_extent(d), imax<I1>(), full, cand[d]); }
+    for (std::size_t d = 0; d < R2; ++d) { cnt[R1 + d] = eq_candidates(E2::static_extent(d), imax<I2>(), full, cand[R1 + d]); }
+    int idx[4] = {0, 0, 0, 0};
+    for (;;) {
+        Shape s1{static_cast<int>(R1), {0, 0, 0, 0}};
+        Shape s2{static_cast<int>(R2), {0, 0, 0, 0}};
+        Case k{name, N, {0, 0, 0, 0}, 0};
+        for (std::size_t d = 0; d < R1; ++d) { k.e[d] = s1.e[d] = cand[d][idx[d]]; }
+        for (std::size_t d = 0; d < R2; ++d) { k.e[R1 + d] = s2.e[d] = cand[R1 + d][idx[R1 + d]]; }
+        if (want("equality", k)) {
+            vf::Flight<Case> fl("equality", k);
+            bool exp       = R1 == R2;
+            bool congruent = R1 == R2;
+            if constexpr (R1 == R2) {
+                for (std::size_t d = 0; d < R1; ++d) {
+                    exp       = exp && s1.e[d] == s2.e[d];
+                    congruent = congruent && ((s1.e[d] ^ s2.e[d]) & 0xFF) == 0;
+                }
+            }
+            E1 const e1 = make_all<E1, ll>(s1);
+            E2 const e2 = make_all<E2, ll>(s2);
+            if (!eq_report(k, "extents", exp, e1 == e2, e2 == e1, e1 != e2, e2 != e1)) { return; }
+            if constexpr (R1 == R2) {
+                // mappings: precondition required_span_size representable in the respective index type
+                if (prod128(s1) <= imax<I1>() && prod128(s2) <= imax<I2>()) {
+                    etl::layout_left::mapping<E1> const l1(e1);
+                    etl::layout_left::mapping<E2> const l2(e2);
+                    if (!eq_report(k, "layout_left mappings", exp, l1 == l2, l2 == l1, l1 != l2, l2 != l1)) { return; }
+                    etl::layout_right::mapping<E1> const r1(e1);
+                    etl::layout_right::mapping<E2> const r2(e2);
+                    if (!eq_report(k, "layout_right mappings", exp, r1 == r2, r2 == r1, r1 != r2, r2 != r1)) { return; }
+                    vf::count("equality.mappings_compared");
+                }
+            }
+            vf::eval("equality");
+            bool const nt = R1 != R2 || (congruent && !exp) || (exp && !std::is_same_v<I1, I2>);
+            if (nt) { vf::nontrivial_count(); }
+            vf::label("equality.different_but_congruent_mod_256", congruent && !exp);
+            vf::label("equality.rank_mismatch", R1 != R2);
+            vf::label("equality.equal", exp);
+            if (congruent && !exp && idx[0] % 5 == 2) { vf::sample("equality", [&] { return show_case(k) + " (extents differ but agree modulo 256: must compare unequal in both operand orders)"; }); }
+        }
+        int d = N - 1;
+        for (; d >= 0; --d) {
+            if (++idx[d] < cnt[d]) { break; }
+            idx[d] = 0;
+        }
+        if (d < 0) { break; }
+    }
+}
+
+// ---------------------------------------------------------------- 8. large extents
+template <typename I, typename F, std::size_t... Is>
+decltype(auto) call_ixll_impl(F& f, ll const* ix, std::index_sequence<Is...> /*unused*/)
+{
+    return f(static_cast<I>(ix[Is])...);
+}
+constexpr int wide_samples = 12;
+// sample multi-indices of a shape (no zero extent): origin, last, the end of each axis, random ones (seeded by the shape)
+auto wide_indices(Shape const& sh, ll (*ix)[4]) -> int
+{
+    int n = 0;
+    auto add = [&](auto f) {
+        for (int r = 0; r < 4; ++r) { ix[n][r] = r < sh.rank ? f(r) : 0; }
+        ++n;
+    };
+    add([&](int) { return ll{0}; });
+    add([&](int r) { return sh.e[r] - 1; });
+    for (int a = 0; a < sh.rank; ++a) {
+        add([&](int r) { return r == a ? sh.e[r] - 1 : ll{0}; });
+    }
+    std::uint64_t h = 0xC19;
+    for (int r = 0; r < sh.rank; ++r) { h = vf::mix(h, sh.e[r]); }
+    vf::Rng rng(h);
+    while (n < wide_samples) {
+        add([&](int r) { return static_cast<ll>(rng.below(static_cast<std::uint64_t>(sh.e[r]))); });
+    }
+    return n;
+}
+[[gnu::noinline]] auto wide_ok(Case const& k, Shape const& sh, char const* what, u128 got_rss, bool has_rss, ll const* got_st, bool has_st, ll const* got_off, int noff, ll const (*ix)[4], Formula f, ll const* st, u128 exp_rss) -> bool
+{
+    if (has_rss && got_rss != exp_rss) {
+        fail("wide", k, "%s: required_span_size() = %s, expected %s", what, u128_str(got_rss).c_str(), u128_str(exp_rss).c_str());
+        return false;
+    }
+    for (int r = 0; has_st && r < sh.rank; ++r) {
+        if (got_st[r] != st[r]) {
+            fail("wide", k, "%s: stride(%d) = %lld, expected %lld", what, r, got_st[r], st[r]);
+            return false;
+        }
+    }
+    for (int i = 0; i < noff; ++i) {
+        u128 exp = 0;
+        if (f == Formula::right) {
+            for (int r = 0; r < sh.rank; ++r) { exp = exp * static_cast<ull>(sh.e[r]) + static_cast<ull>(ix[i][r]); }
+        } else if (f == Formula::left) {
+            for (int r = sh.rank - 1; r >= 0; --r) { exp = exp * static_cast<ull>(sh.e[r]) + static_cast<ull>(ix[i][r]); }
+        } else {
+            for (int r = 0; r < sh.rank; ++r) { exp += static_cast<u128>(static_cast<ull>(ix[i][r])) * static_cast<ull>(st[r]); }
+        }
+        if (static_cast<u128>(static_cast<ull>(got_off[i])) != exp || exp >= exp_rss) {
+            fail("wide", k, "%s: mapping(%lld,%lld,%lld,%lld)[rank %d] = %lld, closed form (128-bit) gives %s, required_span_size %s", what, ix[i][0], ix[i][1], ix[i][2], ix[i][3], sh.rank, got_off[i], u128_str(exp).c_str(), u128_str(exp_rss).c_str());
+            return false;
+        }
+    }
+    return true;
+}
+// strides of variant `var` (same scheme as make_strides) in 128-bit arithmetic; false if anything exceeds `limit`
+auto wide_strides(Shape const& sh, int var, ull limit, ll* s, u128& rss) -> bool
+{
+    int perm[4]  = {0, 1, 2, 3};
+    int const pm = var % 3;
+    unrank_perm(sh.rank, var / 3, perm);
+    u128 w[4] = {0, 0, 0, 0};
+    for (int i = 0; i < sh.rank; ++i) {
+        if (i == 0) {
+            w[perm[0]] = pm == 2 ? 2 : 1;
+        } else {
+            u128 const below = w[perm[i - 1]];
+            u128 const eprev = sh.e[perm[i - 1]] < 1 ? 1 : static_cast<ull>(sh.e[perm[i - 1]]);
+            w[perm[i]]       = pm == 0 ? below * eprev : pm == 1 ? below * eprev + static_cast<unsigned>(i) : below * (eprev + 1);
+        }
+        if (w[perm[i]] > limit) { return false; }
+    }
+    bool zero = false;
+    rss       = 1;
+    for (int r = 0; r < sh.rank; ++r) {
+        zero = zero || sh.e[r] == 0;
+        if (sh.e[r] > 0) { rss += static_cast<u128>(static_cast<ull>(sh.e[r] - 1)) * w[r]; }
+        s[r] = static_cast<ll>(w[r]);
+    }
+    if (zero) { rss = 0; }
+    return rss <= limit;
+}
+template <typename E>
+void check_wide(Case const& k, Shape const& sh)
+{
+    using I          = typename E::index_type;
+    constexpr auto R = E::rank();
+    vf::Flight<Case> fl("wide", k);
+    constexpr ull limit = imax<I>() < (1ULL << 62) ? imax<I>() : (1ULL << 62);
+    E const e           = make_all<E, ll>(sh);
+    {
+        ll g[4] = {0, 0, 0, 0};
+        get_ext(e, g);
+        if (!ext_ok("wide", k, sh, g, "extents(rank-many values)")) { return; }
+    }
+    u128 const P = prod128(sh);
+    ll ix[wide_samples][4];
+    int const nix = P == 0 ? 0 : wide_indices(sh, ix);
+    ll off[wide_samples];
+    ll st[4]  = {0, 0, 0, 0};
+    ll got[4] = {0, 0, 0, 0};
+    auto run = [&]<typename M>(M const& m, char const* what, Formula f, u128 rss, bool has_rss) -> bool {
+        if constexpr (R > 0) {
+            for (std::size_t r = 0; r < R; ++r) { got[r] = static_cast<ll>(m.stride(r)); }
+        }
+        for (int i = 0; i < nix; ++i) { off[i] = static_cast<ll>(call_ixll_impl<I>(m, ix[i], std::make_index_sequence<R>{})); }
+        u128 grss = 0;
+        if constexpr (requires { m.required_span_size(); } && (!std::is_same_v<typename M::layout_type, etl::layout_stride> || has_defined_rss<M>)) { grss = static_cast<u128>(static_cast<ull>(m.required_span_size())); }
+        return wide_ok(k, sh, what, grss, has_rss, got, R > 0, off, nix, ix, f, st, rss);
+    };
+    // partial products are representable whenever the shape generator produced the shape (it bounds the product of the
+    // non-zero extents), so stride(r) is well defined also for shapes with a zero extent
+    left_strides(sh, st);
+    if (!run(etl::layout_left::mapping<E>(e), "layout_left", Formula::left, P, true)) { return; }
+    right_strides(sh, st);
+    if (!run(etl::layout_right::mapping<E>(e), "layout_right", Formula::right, P, true)) { return; }
+    {
+        // mdspan facts over a null handle (nothing is dereferenced)
+        etl::mdspan<int, E> const m(nullptr, e);
+        bool const ok = static_cast<u128>(static_cast<ull>(m.size())) == P && m.empty() == (P == 0);
+        CHECK("wide", k, ok, "mdspan::size() = %llu, expected %s", static_cast<ull>(m.size()), u128_str(P).c_str());
+    }
+    if constexpr (R > 0) {
+        int const nvar = nperms(static_cast<int>(R)) * 3;
+        for (int v = 0; v < nvar; ++v) {
+            u128 rss = 0;
+            if (!wide_strides(sh, v, limit, st, rss)) {
+                vf::count("wide.stride_variant_not_representable");
+                continue;
+            }
+            etl::array<I, R> sa{};
+            for (std::size_t r = 0; r < R; ++r) { sa[r] = static_cast<I>(st[r]); }
+            etl::layout_stride::mapping<E> const m(e, sa);
+            char what[48];
+            std::snprintf(what, sizeof what, "layout_stride (stride variant %d)", v);
+            if (!run(m, what, Formula::strided, rss, has_defined_rss<etl::layout_stride::mapping<E>>)) { return; }
+            vf::count("wide.stride_variants_checked");
+        }
+    }
+    vf::eval("wide");
+    vf::nontrivial_count();
+}
+struct WideOps {
+    char const* name;
+    int rank;
+    std::size_t st[4];
+    ull imax;
+    void (*fn)(Case const&, Shape const&);
+};
+template <typename E>
+auto wide_for(char const* name) -> WideOps
+{
+    WideOps t{};
+    t.name = name;
+    t.rank = static_cast<int>(E::rank());
+    for (std::size_t r = 0; r < E::rank(); ++r) { t.st[r] = E::static_extent(r); }
+    t.imax = imax<typename E::index_type>();
+    t.fn   = &check_wide<E>;
+    return t;
+}
+// shapes with large dynamic extents whose index space (and every partial product) is representable
+void wide_shapes(WideOps const& t, vf::Rng& rng, int nrandom, std::vector<Shape>& out)
+{
+    ull const limit = t.imax < (1ULL << 62) ? t.imax : (1ULL << 62);
+    int dyn[4]      = {0, 0, 0, 0};
+    int nd          = 0;
+    ull S           = 1;
+    for (int r = 0; r < t.rank; ++r) {
+        if (t.st[r] == D) {
+            dyn[nd++] = r;
+        } else {
+            S *= t.st[r];
+        }
+    }
+    if (nd == 0 || S == 0 || S > limit) { return; }
+    ull const budget = limit / S;
+    auto emit = [&](ull const* v) {
+        Shape sh{t.rank, {0, 0, 0, 0}};
+        for (int r = 0; r < t.rank; ++r) { sh.e[r] = t.st[r] == D ? 0 : static_cast<ll>(t.st[r]); }
+        u128 p = S;
+        for (int j = 0; j < nd; ++j) {
+            sh.e[dyn[j]] = static_cast<ll>(v[j]);
+            if (v[j] != 0) { p *= v[j]; }
+        }
+        if (p <= limit) { out.push_back(sh); }
+    };
+    ull v[4];
+    auto ones = [&] {
+        for (int j = 0; j < 4; ++j) { v[j] = 1; }
+    };
+    // boundary shapes: the whole budget in one dimension; values around the limits of the narrower index types
+    for (int j = 0; j < nd; ++j) {
+        ones();
+        v[j] = budget;
+        emit(v);
+        for (ull b : {127ULL, 128ULL, 255ULL, 256ULL, 32767ULL, 32768ULL, 65535ULL, 65536ULL, 2147483647ULL, 2147483648ULL, 4294967295ULL, 4294967296ULL, 4294967340ULL}) {
+            if (b > budget) { continue; }
+            ones();
+            v[j] = b;
+            emit(v);
+            if (nd > 1) {
+                v[(j + 1) % nd] = budget / b < 3 ? budget / b : 3;
+                emit(v);
+                v[(j + 1) % nd] = budget / b;
+                emit(v);
+            }
+        }
+    }
+    // balanced: every dynamic extent about budget^(1/nd)
+    {
+        ull root = 1;
+        while (true) {
+            u128 p = 1;
+            for (int j = 0; j < nd; ++j) { p *= (root + 1); }
+            if (p > budget) { break; }
+            ++root;
+            if (root > (1ULL << 32)) { break; }
+        }
+        for (int j = 0; j < 4; ++j) { v[j] = root; }
+        emit(v);
+        v[0] = root > 1 ? root - 1 : 1;
+        emit(v);
+        v[nd - 1] = 0;
+        emit(v);
+    }
+    // random splits of the budget
+    for (int i = 0; i < nrandom; ++i) {
+        ull rem = budget;
+        int order[4] = {0, 1, 2, 3};
+        for (int j = nd - 1; j > 0; --j) { std::swap(order[j], order[rng.below(static_cast<std::uint64_t>(j) + 1)]); }
+        for (int q = 0; q < nd; ++q) {
+            int const j = order[q];
+            ull x;
+            if (q == nd - 1 && rng.below(2) == 0) {
+                x = rem;
+            } else {
+                int bits = 0;
+                while ((rem >> bits) > 1) { ++bits; }
+                int const b = static_cast<int>(rng.below(static_cast<std::uint64_t>(bits) + 1));
+                ull const hi = b >= 63 ? rem : std::min<ull>(rem, (2ULL << b) - 1);
+                ull const lo = 1ULL << b;
+                x            = lo >= hi ? hi : lo + rng.below(hi - lo + 1);
+            }
+            if (x == 0) { x = 1; }
+            v[j] = x;
+            rem /= x;
+            if (rem == 0) { rem = 1; }
+        }
+        if (rng.below(12) == 0) { v[rng.below(static_cast<std::uint64_t>(nd))] = 0; }
+        emit(v);
+    }
+}
+void run_wide(WideOps const& t, vf::Ctx& c, std::uint64_t salt)
+{
+    vf::Rng rng(c.seed * 7919 + salt);
+    std::vector<Shape> shapes;
+    wide_shapes(t, rng, c.thorough() ? 200 : 40, shapes);
+    for (auto const& sh : shapes) {
+        Case const k{t.name, t.rank, {sh.e[0], sh.e[1], sh.e[2], sh.e[3]}, 0};
+        t.fn(k, sh);
+        bool big = false;
+        for (int r = 0; r < t.rank; ++r) { big = big || sh.e[r] > 65535; }
+        vf::label("wide.extent_above_65535", big);
+        vf::label("wide.has_zero_extent", has_zero(sh));
+        if (big && t.rank >= 3 && (sh.e[0] % 7) == 3) { vf::sample("wide", [&] { return show_case(k) + " (layout_left/right/stride arithmetic against 128-bit closed forms)"; }); }
+    }
+}
+struct EqOps {
+    char const* name;
+    void (*fn)(char const*);
+};
+template <typename T> struct arg_type;
+template <typename U> struct arg_type<void(U)> { using type = U; };
+
 // ------------------------------------------------------------------------------------------------ per-type table + driver
 struct TypeOps {
     char const* name;
@@ -1227,7 +1629,7 @@ void run_type(TypeOps const& t)
             sh.e[dp[j]] = c % base;
             c /= base;
         }
-        Case k{t.name, R, {static_cast<int>(sh.e[0]), static_cast<int>(sh.e[1]), static_cast<int>(sh.e[2]), static_cast<int>(sh.e[3])}, 0};
+        Case k{t.name, R, {sh.e[0], sh.e[1], sh.e[2], sh.e[3]}, 0};
         if (g_ctl.filter) {
             bool same = true;
             for (int r = 0; r < R; ++r) { same = same && g_ctl.fe[r] == k.e[r]; }
@@ -1309,8 +1711,32 @@ void run_type(TypeOps const& t)
 #define C19_TYPE(name, I, ...)   ops_for<etl::extents<I __VA_OPT__(, ) __VA_ARGS__>, 2>(name),
 #define C19_TYPE_L(name, I, ...) ops_for<etl::extents<I __VA_OPT__(, ) __VA_ARGS__>, 1>(name),
 #define C19_TYPE_C(name, I, ...) ops_for<etl::extents<I __VA_OPT__(, ) __VA_ARGS__>, 0>(name),
+#define C19_WIDE(name, I, ...)
+#define C19_EQ(name, A, B)
 TypeOps const g_table[] = {
 #include C19_TABLE
+};
+#undef C19_TYPE
+#undef C19_TYPE_L
+#undef C19_TYPE_C
+#undef C19_WIDE
+#undef C19_EQ
+#define C19_TYPE(name, I, ...)
+#define C19_TYPE_L(name, I, ...)
+#define C19_TYPE_C(name, I, ...)
+#define C19_EQ(name, A, B)
+#define C19_WIDE(name, I, ...) wide_for<etl::extents<I __VA_OPT__(, ) __VA_ARGS__>>(name),
+WideOps const g_wide[] = {
+#include C19_TABLE
+    WideOps{nullptr, 0, {0, 0, 0, 0}, 0, nullptr}, // sentinel
+};
+#undef C19_WIDE
+#undef C19_EQ
+#define C19_WIDE(name, I, ...)
+#define C19_EQ(name, A, B) EqOps{name, &check_eq<typename arg_type<void A>::type, typename arg_type<void B>::type>},
+EqOps const g_eq[] = {
+#include C19_TABLE
+    EqOps{nullptr, nullptr}, // sentinel
 };
 
 } // namespace
@@ -1327,15 +1753,25 @@ void vf_run(vf::Ctx& c)
 #if defined(C19_CTAD)
     if (c.shard == 0) { check_ctad(); }
 #endif
+    std::uint64_t salt = 0;
+    for (auto const& t : g_wide) {
+        ++salt;
+        if (t.name == nullptr || !c.mine(i++)) { continue; }
+        run_wide(t, c, salt);
+    }
+    for (auto const& t : g_eq) {
+        if (t.name == nullptr || !c.mine(i++)) { continue; }
+        t.fn(t.name);
+    }
 }
 
 std::string vf_replay(std::string const& sub, std::string const& cs)
 {
     // case string: "<type> e=<a,b,..|-> v=<var>"
-    char type[64] = {0};
-    char es[64]   = {0};
+    char type[96] = {0};
+    char es[128]  = {0};
     int var       = 0;
-    if (std::sscanf(cs.c_str(), "%63s e=%63s v=%d", type, es, &var) != 3) { return "unparsable case string: " + cs; }
+    if (std::sscanf(cs.c_str(), "%95s e=%127s v=%d", type, es, &var) != 3) { return "unparsable case string: " + cs; }
     g_ctl.filter = true;
     g_ctl.fsub   = sub;
     g_ctl.fvar   = var;
@@ -1343,9 +1779,33 @@ std::string vf_replay(std::string const& sub, std::string const& cs)
     if (std::string(es) != "-") {
         std::stringstream ss(es);
         std::string tok;
-        while (std::getline(ss, tok, ',') && g_ctl.frank < 4) { g_ctl.fe[g_ctl.frank++] = std::atoi(tok.c_str()); }
+        while (std::getline(ss, tok, ',') && g_ctl.frank < 4) { g_ctl.fe[g_ctl.frank++] = std::atoll(tok.c_str()); }
     }
     g_ctl.maxext = 5;
+    if (sub == "wide") { // the case string holds the complete shape: run it directly
+        for (auto const& t : g_wide) {
+            if (t.name != nullptr && std::string(t.name) == type && t.rank == g_ctl.frank) {
+                Shape sh{t.rank, {g_ctl.fe[0], g_ctl.fe[1], g_ctl.fe[2], g_ctl.fe[3]}};
+                for (int r = 0; r < t.rank; ++r) {
+                    if (sh.e[r] < 0 || (t.st[r] != D && static_cast<ll>(t.st[r]) != sh.e[r])) { return "shape does not fit type " + std::string(type); }
+                }
+                Case const k{t.name, t.rank, {sh.e[0], sh.e[1], sh.e[2], sh.e[3]}, 0};
+                g_ctl.filter = false;
+                t.fn(k, sh);
+                return "";
+            }
+        }
+        return "wide type " + std::string(type) + " is not part of this harness";
+    }
+    if (sub == "equality") {
+        for (auto const& t : g_eq) {
+            if (t.name != nullptr && std::string(t.name) == type) {
+                t.fn(t.name);
+                return g_ctl.matched ? "" : "case not reached: " + cs;
+            }
+        }
+        return "equality pair " + std::string(type) + " is not part of this harness";
+    }
 #if defined(C19_CTAD)
     if (sub == "ctad") {
         check_ctad();
